@@ -293,6 +293,14 @@ fn gen_c04(seed: u64) -> Plan {
         b.plan.knobs.last_n = pick(&mut b.rng, &[2u64, 3, 5, 10]);
     }
     connect_all(&mut b, 3_000);
+    // After a reorg every new block clears the peer's latest filter hashes again (the reorg
+    // section is inherited by child prove states); with a tiny server batch the hashes can
+    // then never be completed between two blocks. Not a stated property: use realistic batches.
+    for p in b.plan.peers.iter_mut() {
+        if p.hashes_batch < 33 {
+            p.hashes_batch = 2000;
+        }
+    }
     let until = b.rng.range(40_000, 200_000);
     let tip = b.plan.initial_blocks;
     // scripts early, so that the index has content when the fork arrives
